@@ -340,6 +340,66 @@ def rule_sets(F, rep, R):
                               "cursors (i+%d, j+%d)" % (name.capitalize(), o, sorted(map(str, seen)), em_n, di, dj), fn.loc)
 
 
+def rule_member(F, rep):
+    R = rep.rule("C17.R2", "std.setMember's binary search halves the right way: on Equal the answer is true; on Less (the "
+                 "element sorts before the probe) it continues in [start, mid-1] or answers false when mid == start; on Greater "
+                 "it continues in [mid+1, end] or answers false when mid == end; the probe is start + (end-start)/2")
+    chk = F.fn("<%s>::do_std_set_member_check" % E)
+    us = usize_args(chk.body)
+    if len(us) != 3:
+        raise kwalk.WalkLimit("do_std_set_member_check: expected (start, end, mid)")
+    names = chk.body.local_names()
+    byname = {names.get(l): l for l in us}
+    if not {"start", "end", "mid"} <= set(byname):
+        raise kwalk.WalkLimit("do_std_set_member_check: parameter names start/end/mid")
+    cases = [(2, 9, 5), (5, 9, 5), (2, 5, 5), (5, 5, 5)]
+    for o in ORD:
+        for (st_, en, mid) in cases:
+            outs = _walk(F, rep, chk, ords=[o], env={str(byname["start"]): st_, str(byname["end"]): en, str(byname["mid"]): mid}, arith=True)
+            seen = set()
+            for oc in outs:
+                if em.is_err_return(oc) or oc[0] != "return":
+                    continue
+                res = None
+                for m in oc[1]:
+                    if m[0] == "push" and m[1] == "state_stack" and isinstance(m[2], tuple) and m[2][0] == "StdSetMemberSlice":
+                        pay = dict(m[2][1]) if isinstance(m[2][1], tuple) else {}
+                        res = ("slice", tuple(v for k, v in sorted(pay.items()) if isinstance(v, int)))
+                    if m[0] == "push" and m[1] == "value_stack" and isinstance(m[2], tuple) and m[2][0] == "Bool":
+                        pay = dict(m[2][1]) if isinstance(m[2][1], tuple) else {}
+                        res = ("answer", pay.get(0))
+                seen.add(res)
+            if o == "Equal":
+                exp = {("answer", 1)}
+            elif o == "Less":
+                exp = {("answer", 0)} if mid == st_ else {("slice", (st_, mid - 1))}
+            else:
+                exp = {("answer", 0)} if mid == en else {("slice", (mid + 1, en))}
+            ok = seen == exp
+            rep.ob(R, "setMember|%s|%d,%d,%d" % (o, st_, en, mid), ok, {"ordering": o, "start,end,mid": (st_, en, mid), "outcome": sorted(map(str, seen))})
+            if not ok:
+                rep.violation(R, "do_std_set_member_check|%s|%s" % (o, "edge" if mid in (st_, en) else "inner"),
+                              "std.setMember with ordering %s at start=%d end=%d mid=%d: %s, binary search requires %s"
+                              % (o, st_, en, mid, sorted(map(str, seen)), sorted(map(str, exp))), chk.loc)
+    sl = F.fn("<%s>::do_std_set_member_slice" % E)
+    us = usize_args(sl.body)
+    names = sl.body.local_names()
+    byname = {names.get(l): l for l in us}
+    for (st_, en, want) in [(2, 9, 5), (3, 3, 3), (3, 4, 3), (0, 1, 0)]:
+        outs = _walk(F, rep, sl, env={str(byname.get("start", us[0])): st_, str(byname.get("end", us[-1])): en}, arith=True)
+        mids = set()
+        for oc in outs:
+            for m in oc[1]:
+                if m[0] == "push" and m[1] == "state_stack" and isinstance(m[2], tuple) and m[2][0] == "StdSetMemberCheck":
+                    pay = dict(m[2][1]) if isinstance(m[2][1], tuple) else {}
+                    ints = tuple(v for k, v in sorted(pay.items()) if isinstance(v, int))
+                    mids.add(ints)
+        ok = mids == {(st_, en, want)}
+        rep.ob(R, "setMember|probe|%d,%d" % (st_, en), ok, {"start,end": (st_, en), "(start,end,mid)": sorted(map(str, mids))})
+        if not ok:
+            rep.violation(R, "do_std_set_member_slice|probe", "probe for [%d, %d] is %s, expected mid=%d" % (st_, en, sorted(map(str, mids)), want), sl.loc)
+
+
 def run(F, rep, tier):
     R = rep.rule("C17.R1", "tie-break / advance decision tables of merge, partition, minArray, maxArray and the set "
                  "walks equal the ones the contracts require (stability, first-minimal/maximal, union/inter/diff)")
@@ -348,6 +408,7 @@ def run(F, rep, tier):
     rule_minmax(F, rep, R)
     rule_sets(F, rep, R)
     rep.floor(R, rep.rules[R]["obligations"], 20, "table rows")
+    rule_member(F, rep)
     from . import c08
     c08.rule_r4(F, rep)      # the ordering primitive the sort/set walks pop their `Ordering` from: array state machines
     c08.rule_r4b(F, rep)
